@@ -429,6 +429,10 @@ pub fn finish(ctx: &Ctx, stats: Stats, meta: Meta) -> i32 {
         eprintln!("INCONCLUSIVE: the run observed too little (evaluations={}, distinct_nontrivial={})", stats.evaluations, distinct_nontrivial);
         return 2;
     }
+    if ctx.replay.is_none() && stats.samples.is_empty() {
+        eprintln!("INCONCLUSIVE: the run recorded no sample case");
+        return 2;
+    }
     if ctx.replay.is_none() && stats.inconclusive * 2 > stats.evaluations.max(1) {
         eprintln!("INCONCLUSIVE: most cases were inconclusive ({} of {})", stats.inconclusive, stats.evaluations);
         return 2;
